@@ -66,7 +66,7 @@ func (r *RecvOp[T]) reflectCase() reflect.SelectCase {
 }
 func (r *RecvOp[T]) deliverReflect(v reflect.Value, ok bool) {
 	if ok {
-		r.Val = v.Interface().(T)
+		reflect.ValueOf(&r.Val).Elem().Set(v)
 	}
 	r.Ok = ok
 }
